@@ -523,6 +523,15 @@ class BuildWorld(HistoryWorld):
                     return None
                 op.update(k='std', wc=rng.choice([-128, -1, 0, 1, 127, rng.randint(-128, 127)]),
                           acc=bytes(rng.getrandbits(8) for _ in range(32)).hex(), any=any_, form=rng.choice(['obj', 'obj', 'str', 'friendly', 'to_cell']))
+                # the same account turns up again and again in real data, with and without anycast
+                seen = getattr(st, 'accounts_seen', None)
+                if seen is None:
+                    seen = st.accounts_seen = []
+                if seen and rng.random() < 0.4:
+                    op['wc'], op['acc'] = rng.choice(seen)
+                else:
+                    seen.append((op['wc'], op['acc']))
+                    del seen[:-8]
         elif t in ('maybe_ref', 'dict', 'ref'):
             if t != 'ref' and room_bits < 1:
                 return None
@@ -678,7 +687,11 @@ class BuildWorld(HistoryWorld):
                           'route': rng.choice(['begin_parse', 'to_slice', 'from_cell', 'builder_to_slice', 'copy', 'to_cell_again'])})
         elif r < 0.77:
             nb = rng.choice([0, 1, 3, 7, 8, 9, 12, 16, 100, 1023])
-            q.append({'op': 'plain_cell', 'bits': _rbits(rng, nb), 'refs': [rng.randrange(1 << 16) for _ in range(rng.choice([0, 1, 4]))]})
+            q.append({'op': 'plain_cell', 'bits': _rbits(rng, nb), 'refs': [rng.randrange(1 << 16) for _ in range(rng.choice([0, 1, 4]))],
+                      'resume': rng.choice(['', '', 'to_builder', 'slice_to_builder']) if nb >= 900 or rng.random() < 0.5 else ''})
+            if rng.random() < 0.3:
+                nb = rng.choice([1000, 1015, 1016, 1020, 1022, 1023])
+                q.append({'op': 'plain_cell', 'bits': _rbits(rng, nb), 'refs': [rng.randrange(1 << 16) for _ in range(rng.choice([0, 3, 4]))], 'resume': rng.choice(['to_builder', 'slice_to_builder'])})
         elif st.slices:
             self._gen_aimed_load(st, rng)
         else:
@@ -906,6 +919,12 @@ class BuildWorld(HistoryWorld):
         if ok:
             st.slices.append({'lib': s, 'bits': twin.bits, 'refs': [st.by_id[id(e['lib'])] for e in refs], 'plain': True})
             ctx.probe('slice-of-plain-bitarray-cell')
+        if op.get('resume'):
+            # building is resumed from the finished cell: the builder obtained this way is a builder like any other (same limits)
+            okb, b = call(c.to_builder) if op['resume'] == 'to_builder' else call(lambda: c.begin_parse().to_builder())
+            if okb and isinstance(b, Builder):
+                st.builders.append({'lib': b, 'bits': twin.bits, 'refs': [st.by_id[id(e['lib'])] for e in refs]})
+                ctx.probe('builder-resumed-from-a-plain-bitarray-cell')
 
     def op_aux_pruned(self, st, op, ctx):
         """A level-1 pruned branch standing for a subtree of depth d (built through the builder's exotic route)."""
@@ -1215,6 +1234,20 @@ class BuildWorld(HistoryWorld):
                     got = ('other-cell',)
         else:
             got = lib_value(st, t, res)
+        if t == 'address' and not c07:
+            # the caller KEEPS the address values it was handed while it reads on (the same account may come again, in another form):
+            # a value returned earlier is the caller's and must not change under it
+            held = getattr(st, 'held_addresses', None)
+            if held is None:
+                held = st.held_addresses = []
+            for obj, was in held:
+                if addr_tuple(obj) != was:
+                    self.V(ctx, 'returned-value-changed-later', ('preload_' if peek else 'load_') + t, 'address-held-by-the-caller',
+                           'an address value returned by an earlier load changed while later addresses were loaded: %s -> %s' % (_shortv(was), _shortv(addr_tuple(obj))))
+                    held.clear()
+                    break
+            if isinstance(res, Address) and len(held) < 64:
+                held.append((res, got))
         if got != val and not c07:
             self.V(ctx, 'peek' if peek else 'roundtrip', ('preload_' if peek else 'load_') + t, _load_class(t, val),
                    '%s_%s(%s) returned %s, stored value is %s' % ('preload' if peek else 'load', t, op.get('n', ''), _shortv(got), _shortv(val)))
